@@ -1,8 +1,14 @@
 """C13 — see DESIGN.md §4."""
-from ..spec import run_specs
+from ..spec import run_specs, k1_pairing, size_vs_write, extract
+from ..specs_registry import SPECS
 
 EXPLANATION = "Per write::LineInstruction variant the emitted operand sequence equals the reviewed table and pairs with the reader's decoder for the same opcode; extended-opcode lengths equal the bytes that follow. Opcode selection arithmetic is NOT decided."
 
+S = {s['id']: s for s in SPECS}
+
 
 def run(rep, ctx):
+    g = ctx.g
     run_specs(rep, ctx, 'C13')
+    k1_pairing(rep, g, 'K1-line', S['w_line_instr'], [S['line_instr_parse_std'], S['line_instr_parse_ext']], 'DW_LN',
+               strip_prefix=('DW_LNE_', ['B1', 'ULEB', 'B1']), b1_is_uleb_for=('SetDiscriminator',))
